@@ -32,7 +32,13 @@ class StmtMixin:
             out.append(ind + '}')
         elif k == 'DeclStmt':
             for c in n.get('inner', []):
-                if c.get('kind') == 'VarDecl': self.vardecl(c, out, ind)
+                if c.get('kind') == 'VarDecl':
+                    ini = [x for x in c.get('inner', []) if x.get('kind') not in ('FullComment',)]
+                    if ini and self.skip(ini[-1]).get('kind') == 'LambdaExpr' and self.u.get('visit_sequences'):
+                        # a local closure: only usable as the visitor of a declared visit sequence (inlined there)
+                        self.lambda_vars[c['id']] = self.skip(ini[-1]); self.rules['local-lambda-variable'] += 1
+                        continue
+                    self.vardecl(c, out, ind)
                 elif c.get('kind') in ('TypeAliasDecl', 'TypedefDecl', 'StaticAssertDecl', 'UsingDecl'): pass
                 else: raise Unsupported('declaration %s at %s' % (c.get('kind'), self.where(n)))
         elif k == 'ReturnStmt':
